@@ -53,14 +53,18 @@ class Linear(Transform):
             return self.forward_no_cache(inputs)
 
     def _check_forward_cache(self):
+        # The cache holds detached tensors: a cached value that still carried its autograd graph
+        # could be back-propagated through only once (the graph is freed by the first backward)
+        # and could not be deep-copied.
         if self.cache.weight is None and self.cache.logabsdet is None:
-            self.cache.weight, self.cache.logabsdet = self.weight_and_logabsdet()
+            weight, logabsdet = self.weight_and_logabsdet()
+            self.cache.weight, self.cache.logabsdet = weight.detach(), logabsdet.detach()
 
         elif self.cache.weight is None:
-            self.cache.weight = self.weight()
+            self.cache.weight = self.weight().detach()
 
         elif self.cache.logabsdet is None:
-            self.cache.logabsdet = self.logabsdet()
+            self.cache.logabsdet = self.logabsdet().detach()
 
     def inverse(self, inputs, context=None):
         if not self.training and self.using_cache:
@@ -73,16 +77,14 @@ class Linear(Transform):
 
     def _check_inverse_cache(self):
         if self.cache.inverse is None and self.cache.logabsdet is None:
-            (
-                self.cache.inverse,
-                self.cache.logabsdet,
-            ) = self.weight_inverse_and_logabsdet()
+            inverse, logabsdet = self.weight_inverse_and_logabsdet()
+            self.cache.inverse, self.cache.logabsdet = inverse.detach(), logabsdet.detach()
 
         elif self.cache.inverse is None:
-            self.cache.inverse = self.weight_inverse()
+            self.cache.inverse = self.weight_inverse().detach()
 
         elif self.cache.logabsdet is None:
-            self.cache.logabsdet = self.logabsdet()
+            self.cache.logabsdet = self.logabsdet().detach()
 
     def train(self, mode=True):
         if mode:
